@@ -247,7 +247,7 @@ def case_derived(case, ctx, rnd, mech, res):
     # edit: replace one constant by another identifier / expression, override a value, append a term
     target = rnd.choice(consts)
     newc = 'znew'
-    kind = rnd.choice(['rename', 'expr', 'append', 'prepend_add'])
+    kind = rnd.choice(['rename', 'expr', 'append', 'prepend_add', 'rename_add', 'append_add'])
     edit = {}
     new_vars = copy.deepcopy(base_vars)
     new_ex = ex
@@ -269,6 +269,23 @@ def case_derived(case, ctx, rnd, mech, res):
         new_vars[newc] = ['const', vals.new()]
         new_ex = E.add(ex, E.mul(E.var(newc), E.var(state)))
         var_updates = {newc: new_vars[newc][1]}
+    elif kind == 'rename_add':
+        # the edit applies to the inherited equation; the added equation is taken as written (it still uses `target`)
+        v2 = 'zz2'
+        edit['replace'] = {target: newc}
+        edit['add'] = [f"d/dt * {v2} = -{v2} + {target}*{state}"]
+        new_vars[newc] = ['const', vals.new()]
+        new_vars[v2] = ['var', vals.new()]
+        new_ex = E.subst(ex, {target: newc})
+        var_updates = {newc: new_vars[newc][1], v2: f'variable({new_vars[v2][1]!r})'}
+    elif kind == 'append_add':
+        v2 = 'zz2'
+        edit['append'] = f"+ {newc} * {state}"
+        edit['add'] = [f"d/dt * {v2} = -{v2} + {state}"]
+        new_vars[newc] = ['const', vals.new()]
+        new_vars[v2] = ['var', vals.new()]
+        new_ex = E.add(ex, E.mul(E.var(newc), E.var(state)))
+        var_updates = {newc: new_vars[newc][1], v2: f'variable({new_vars[v2][1]!r})'}
     else:
         v2 = 'zz2'
         edit['add'] = [f"d/dt * {v2} = -{v2} + {state}"]
@@ -279,8 +296,10 @@ def case_derived(case, ctx, rnd, mech, res):
     new_vars[keep] = ['const', vals.new()]
     var_updates[keep] = new_vars[keep][1]
     new_eqs = [['de', state, E.tolist(new_ex)]]
-    if kind == 'prepend_add':
+    if kind in ('prepend_add', 'append_add'):
         new_eqs.append(['de', 'zz2', E.tolist(E.add(E.neg(E.var('zz2')), E.var(state)))])
+    if kind == 'rename_add':
+        new_eqs.append(['de', 'zz2', E.tolist(E.add(E.neg(E.var('zz2')), E.mul(E.var(target), E.var(state))))])
     spec = {'ops': {'dop': {'eqs': new_eqs, 'vars': new_vars}}, 'node_types': {'nt': {'ops': ['dop'], 'over': {}}}, 'edge_types': {},
             'circ': {'name': 'c', 'nodes': {'n0': 'nt'}, 'subs': {}, 'edges': []}}
     res['sig'] = stable_hash([spec, edit])
